@@ -211,6 +211,8 @@ class Gen:
         if r < 0.60:    # super variable
             # the phrase is addressed from the root: whether it may be a loop variable is not documented (the engine does not resolve one there)
             p, t, cur = self.path(doc, [], plain=False) if self.r.random() < 0.3 else ({"loop": [], "base": U("phrase"), "steps": []}, "phrase", None)
+            if cur is not None and cur["t"] != "S":      # a phrase that is not a string (true / number / container): not documented either
+                p, t, cur = {"loop": [], "base": U("phrase"), "steps": []}, "phrase", None
             subs, parts = [], []
             for _ in range(self.r.randint(1, 3)):          # the documented form has at least one sub-variable
                 n, s = self.var_node(doc, env) if self.r.random() < 0.7 else self.math_node(doc, env)
@@ -284,11 +286,15 @@ class Gen:
                 else:
                     cur = None                  # unresolved set: renders nothing (a scalar set is not generated)
                     setp, settext = {"loop": [], "base": U("missing"), "steps": []}, "missing"
+        if not hasset and getattr(self, "_loop_depth", 0) > 0:      # a loop over the root only at the outermost level (members^depth renders otherwise)
+            hasset, setp, settext, cur = 1, {"loop": [], "base": U("recs"), "steps": []}, "recs", self.lookup(doc, U("recs"))
         group, sort = [], 0
         if cur is not None and cur["t"] == "A" and cur["e"] and all(x["t"] == "O" and any(m["k"] == U("year") for m in x["m"]) for x in cur["e"]) and self.r.random() < 0.7:
             group = U("year")
-        elif cur is not None and self.r.random() < 0.35:
-            homog = cur["t"] == "O" or (cur["e"] and (all(x["t"] == "N" for x in cur["e"]) or all(x["t"] == "S" for x in cur["e"])))
+        elif cur is not None and self.r.random() < 0.35 and not setp["loop"]:      # (a set below a loop variable differs per iteration: its kinds are not known here)
+            # numbers of ONE kind only: the engine orders values of different kinds - also naturals, negative integers and reals - by kind
+            # first (recorded finding `sort-orders-number-kinds`; C02.py has a family of its own for it)
+            homog = cur["t"] == "O" or (cur["e"] and ((all(x["t"] == "N" for x in cur["e"]) and len(set(x["k"] for x in cur["e"])) == 1) or all(x["t"] == "S" for x in cur["e"])))
             if homog:
                 sort = self.r.choice([1, 2])
         if group and self.r.random() < 0.5:
@@ -316,7 +322,9 @@ class Gen:
             elif cur["t"] == "O" and cur["m"]:
                 item = cur["m"][0]["v"]
         env2 = env + ([(name, item)] if (use_value and item is not None) else [])
+        self._loop_depth = getattr(self, "_loop_depth", 0) + 1
         body, bs = self.seq(doc, env2, depth - 1)
+        self._loop_depth -= 1
         src = "<loop " + " ".join(attrs) + ">" + bs + "</loop>"
         return {"t": "loop", "hasset": hasset, "set": setp, "value": U(name) if use_value else U("\x01none"), "group": group, "sort": sort, "body": body}, src
 
